@@ -1,3 +1,4 @@
 pub mod ds;
+pub mod pdu;
 pub mod tree;
 pub mod shrink;
